@@ -134,7 +134,19 @@ def eval_cube_table(case):
     if sorted(flats) != list(range(cm.num_actions(n))):
         fails.append(("encoding.bijection", "flatten is not a bijection onto range(num_actions)",
                       f"n={n}: sorted flats {sorted(flats)[:40]}"))
-    return fails, {"evals": 4 * cm.num_actions(n) + 3}
+    # the inverse law on whole batches of flat indices: whatever unflatten_action returns for a batch, flatten_action
+    # maps it back (batch sizes 1..6 and the full move list; windows sliding over the index range)
+    nb = 0
+    for B in (1, 2, 3, 4, 5, 6, total):
+        for start in range(0, max(1, total - B + 1), max(1, B)):
+            x = np.arange(start, start + B, dtype=np.int32) % total
+            back = np.asarray(k.utils.flatten_action(k.utils.unflatten_action(jnp.asarray(x), n), n)).reshape(-1)
+            nb += 1
+            if back.tolist() != x.tolist():
+                fails.append(("encoding.roundtrip_batch", "flatten(unflatten(batch)) != batch",
+                              f"n={n}: batch {x.tolist()} came back as {back.tolist()}"))
+                break
+    return fails, {"evals": 4 * cm.num_actions(n) + 3 + nb}
 
 
 def eval_cube_move(case):
